@@ -4,7 +4,7 @@
    C. bech32_decode (bech32_encode ..) round trip; single-substitution rejection
    D. convertbits 8 -> 5 -> 8 round trip (bit-string view)
    E. polymod = remainder modulo g(x) over GF(32) (independent BIP-173 specification) *)
-From Coq Require Import NArith Ascii String List Bool Lia PeanoNat.
+From Coq Require Import NArith ZArith Ascii String List Bool Lia PeanoNat.
 From Coq Require Import ZifyBool ZifyN ZifyNat.
 From PyC Require Import Base Bech32.
 Import ListNotations.
@@ -152,19 +152,27 @@ Qed.
    L^k e on the checksum residue is neither 0 nor the Bech32 <-> Bech32m difference. *)
 Definition TABLE_K : nat := 120.
 Definition bad_delta (x : N) : bool := (x =? 0) || (x =? N.lxor BECH32_CONST BECH32M_CONST).
-Definition table_ok : bool :=
-  forallb (fun k => forallb (fun e => negb (bad_delta (Lpow k e))) (tl all32)) (seq 0 TABLE_K).
-Lemma single_error_table : table_ok = true.
+Definition table_check (K : nat) (l : list N) : bool :=
+  forallb (fun k => forallb (fun e => negb (bad_delta (Lpow k e))) l) (seq 0 K).
+Lemma single_error_table : table_check TABLE_K (tl all32) = true.
 Proof. vm_compute. reflexivity. Qed.
 
+(* (generic in K, l so that the kernel never has to re-evaluate the table by conversion) *)
+Lemma table_gen K l : table_check K l = true ->
+  forall k e, (k < K)%nat -> In e l -> bad_delta (Lpow k e) = false.
+Proof.
+  unfold table_check. intros H k e Hk He. rewrite forallb_forall in H.
+  specialize (H k ltac:(apply in_seq; lia)).
+  rewrite forallb_forall in H. apply negb_true_iff. now apply H.
+Qed.
+Lemma in_tl_all32 e : 0 < e < 32 -> In e (tl all32).
+Proof.
+  intros He. unfold all32. change (seq 0 32) with (0%nat :: seq 1 31). cbn [map tl].
+  apply in_map_iff. exists (N.to_nat e). split; [lia|]. apply in_seq. lia.
+Qed.
 Lemma table_use k e : (k < TABLE_K)%nat -> 0 < e < 32 -> bad_delta (Lpow k e) = false.
 Proof.
-  intros Hk He. pose proof single_error_table as T. unfold table_ok in T.
-  rewrite forallb_forall in T. specialize (T k). rewrite forallb_forall in T.
-  assert (In e (tl all32)) as Hin.
-  { unfold all32. change (seq 0 32) with (0%nat :: seq 1 31). cbn [map tl].
-    apply in_map_iff. exists (N.to_nat e). split; [lia|]. apply in_seq. lia. }
-  specialize (T ltac:(apply in_seq; lia) e Hin). now apply negb_true_iff in T.
+  intros Hk He. apply (table_gen TABLE_K (tl all32) single_error_table); [assumption | now apply in_tl_all32].
 Qed.
 
 Lemma lxor_lt32 a b : a < 32 -> b < 32 -> N.lxor a b < 32.
@@ -199,3 +207,151 @@ Proof.
   destruct (_ =? BECH32_CONST); [cbn; split; discriminate|].
   destruct (_ =? BECH32M_CONST); cbn; split; try discriminate; reflexivity.
 Qed.
+
+(* ================================================================= B. create / verify *)
+Lemma testbit_high a k n : a < 2 ^ k -> k <= n -> N.testbit a n = false.
+Proof. intros Ha Hn. rewrite <- (N.mod_small a (2 ^ k)) by assumption. now apply N.mod_pow2_bits_high. Qed.
+
+Lemma lxor_shiftl_add a c k : c < 2 ^ k -> N.lxor (N.shiftl a k) c = a * 2 ^ k + c.
+Proof.
+  intros Hc. rewrite <- N.shiftl_mul_pow2. symmetry. apply N.add_nocarry_lxor.
+  apply N.bits_inj; intro n. rewrite N.land_spec, N.bits_0.
+  destruct (N.lt_ge_cases n k) as [Hn|Hn].
+  - now rewrite N.shiftl_spec_low.
+  - rewrite (testbit_high c k n) by assumption. apply andb_false_r.
+Qed.
+
+Lemma lxor_swap4 a b c d : N.lxor (N.lxor a b) (N.lxor c d) = N.lxor (N.lxor a c) (N.lxor b d).
+Proof.
+  apply N.bits_inj; intro n. rewrite !N.lxor_spec.
+  destruct (N.testbit a n), (N.testbit b n), (N.testbit c n), (N.testbit d n); reflexivity.
+Qed.
+
+Fixpoint zipxor (a b : list N) : list N :=
+  match a, b with x :: a', y :: b' => N.lxor x y :: zipxor a' b' | _, _ => [] end.
+
+Lemma polymod_from_lin2 vs : forall ws x y, length vs = length ws ->
+  x < 2 ^ 30 -> y < 2 ^ 30 -> small vs -> small ws ->
+  polymod_from (N.lxor x y) (zipxor vs ws) = N.lxor (polymod_from x vs) (polymod_from y ws).
+Proof.
+  induction vs as [|v vs IH]; intros [|w ws] x y Hl Hx Hy Hv Hw; try discriminate; cbn [zipxor polymod_from fold_left].
+  - reflexivity.
+  - inversion Hv; inversion Hw; subst. injection Hl as Hl.
+    fold (polymod_from (polymod_step x v) vs). fold (polymod_from (polymod_step y w) ws).
+    fold (polymod_from (polymod_step (N.lxor x y) (N.lxor v w)) (zipxor vs ws)).
+    replace (polymod_step (N.lxor x y) (N.lxor v w)) with (N.lxor (polymod_step x v) (polymod_step y w)).
+    + apply IH; try assumption; now apply step_bound.
+    + rewrite !polymod_step_L, L_lin by assumption. apply lxor_swap4.
+Qed.
+
+Lemma L_small x : x < 2 ^ 25 -> L x = x * 32.
+Proof.
+  intros Hx. unfold L. change 0x1FFFFFF with (N.ones 25).
+  rewrite N.land_ones, N.mod_small, N.shiftr_div_pow2, N.div_small by assumption.
+  change (gfold 0) with 0. rewrite N.lxor_0_r, N.shiftl_mul_pow2. reflexivity.
+Qed.
+Lemma step_small x v : x < 2 ^ 25 -> v < 32 -> polymod_step x v = x * 32 + v.
+Proof.
+  intros Hx Hv. rewrite polymod_step_L, L_small by assumption.
+  transitivity (N.lxor (N.shiftl x 5) v).
+  - now rewrite N.shiftl_mul_pow2.
+  - now rewrite (lxor_shiftl_add x v 5) by assumption.
+Qed.
+
+Lemma polymod_from_0_six c0 c1 c2 c3 c4 c5 :
+  c0 < 32 -> c1 < 32 -> c2 < 32 -> c3 < 32 -> c4 < 32 -> c5 < 32 ->
+  polymod_from 0 [c0; c1; c2; c3; c4; c5] = ((((c0 * 32 + c1) * 32 + c2) * 32 + c3) * 32 + c4) * 32 + c5.
+Proof.
+  intros. cbn [polymod_from fold_left].
+  change (2 ^ 25) with 33554432 in *.
+  rewrite (step_small 0 c0) by (change (2 ^ 25) with 33554432; lia).
+  rewrite (step_small _ c1) by (change (2 ^ 25) with 33554432; lia).
+  rewrite (step_small _ c2) by (change (2 ^ 25) with 33554432; lia).
+  rewrite (step_small _ c3) by (change (2 ^ 25) with 33554432; lia).
+  rewrite (step_small _ c4) by (change (2 ^ 25) with 33554432; lia).
+  rewrite (step_small _ c5) by (change (2 ^ 25) with 33554432; lia).
+  lia.
+Qed.
+
+Definition split6 (q : N) : list N := map (fun i => N.land (N.shiftr q (5 * (5 - i))) 31) [0; 1; 2; 3; 4; 5].
+
+Lemma split6_lt q : Forall (fun v => v < 32) (split6 q).
+Proof.
+  unfold split6. apply Forall_forall. intros v Hv. apply in_map_iff in Hv as (i & <- & _).
+  change 31 with (N.ones 5). rewrite N.land_ones. now apply N.mod_upper_bound.
+Qed.
+
+Ltac Zify.zify_post_hook ::= Z.to_euclidean_division_equations.
+Lemma polymod_from_0_split6 q : q < 2 ^ 30 -> polymod_from 0 (split6 q) = q.
+Proof.
+  intros Hq. pose proof (split6_lt q) as F. unfold split6 in *. cbn [map] in *.
+  repeat match goal with H : Forall _ (_ :: _) |- _ => inversion H; clear H; subst end.
+  rewrite polymod_from_0_six by assumption.
+  change (5 * (5 - 0)) with 25. change (5 * (5 - 1)) with 20. change (5 * (5 - 2)) with 15.
+  change (5 * (5 - 3)) with 10. change (5 * (5 - 4)) with 5. change (5 * (5 - 5)) with 0.
+  change 31 with (N.ones 5). rewrite !N.land_ones, !N.shiftr_div_pow2.
+  change (2 ^ 30) with 1073741824 in Hq. change (2 ^ 25) with 33554432. change (2 ^ 20) with 1048576.
+  change (2 ^ 15) with 32768. change (2 ^ 10) with 1024. change (2 ^ 5) with 32. change (2 ^ 0) with 1.
+  lia.
+Qed.
+
+Lemma small_app a b : small a -> small b -> small (a ++ b).
+Proof. apply Forall_app_intro || (intros; apply Forall_app; now split). Qed.
+Lemma small_of_lt32 l : Forall (fun v => v < 32) l -> small l.
+Proof. apply Forall_impl. intros a Ha. change (2 ^ 30) with 1073741824. lia. Qed.
+
+(* appending split6 (P xor c) after `values` where P = polymod (values ++ 000000) yields residue c *)
+Lemma polymod_checksum values c : small values -> c < 2 ^ 30 ->
+  bech32_polymod (values ++ split6 (N.lxor (bech32_polymod (values ++ [0; 0; 0; 0; 0; 0])) c)) = c.
+Proof.
+  intros Hs Hc. unfold bech32_polymod. fold (polymod_from 1 (values ++ [0; 0; 0; 0; 0; 0])).
+  set (q := N.lxor _ c).
+  fold (polymod_from 1 (values ++ split6 q)). rewrite polymod_from_app.
+  set (x := polymod_from 1 values) in *.
+  assert (Hx : x < 2 ^ 30) by (apply polymod_from_bound; [reflexivity | assumption]).
+  assert (Hz : small [0; 0; 0; 0; 0; 0]) by (repeat constructor).
+  assert (Hq : q < 2 ^ 30).
+  { apply lxor_lt_pow2; [|assumption]. rewrite polymod_from_app. fold x. now apply polymod_from_bound. }
+  replace (split6 q) with (zipxor [0; 0; 0; 0; 0; 0] (split6 q)) by (unfold split6; cbn; now rewrite !N.lxor_0_l).
+  rewrite <- (N.lxor_0_r x).
+  rewrite polymod_from_lin2; try assumption; try reflexivity.
+  - rewrite polymod_from_0_split6 by assumption. subst q. rewrite polymod_from_app. fold x.
+    rewrite <- N.lxor_assoc, N.lxor_nilpotent. apply N.lxor_0_l.
+  - apply small_of_lt32, split6_lt.
+Qed.
+
+Definition hrp_ok (hrp : str) : Prop := Forall (fun x => x < 128) hrp.
+Definition data_ok (data : list N) : Prop := Forall (fun v => v < 32) data.
+
+Lemma hrp_expand_small hrp : hrp_ok hrp -> small (hrp_expand hrp).
+Proof.
+  intros H. unfold hrp_expand. apply small_app; [|apply small_app].
+  - apply Forall_forall. intros v Hv. apply in_map_iff in Hv as (x & <- & Hx).
+    rewrite N.shiftr_div_pow2. eapply N.le_lt_trans; [apply N.div_le_upper_bound with (q := x); [easy|]|].
+    + change (2 ^ 5) with 32. lia.
+    + eapply Forall_forall in H; [|exact Hx]. cbn in H. change (2 ^ 30) with 1073741824. lia.
+  - repeat constructor.
+  - apply Forall_forall. intros v Hv. apply in_map_iff in Hv as (x & <- & Hx).
+    change 31 with (N.ones 5). rewrite N.land_ones. pose proof (N.mod_upper_bound x (2 ^ 5)).
+    change (2 ^ 5) with 32 in *. change (2 ^ 30) with 1073741824. lia.
+Qed.
+
+Definition spec_result (spec : option encoding) : encoding := match spec with Some BECH32M => BECH32M | _ => BECH32 end.
+
+(* BIP-173 / BIP-350 consistency: a created checksum verifies, with the intended constant *)
+Theorem create_verify hrp data spec : hrp_ok hrp -> data_ok data ->
+  verify_checksum hrp (data ++ create_checksum hrp data spec) = Some (spec_result spec).
+Proof.
+  intros Hh Hd. unfold verify_checksum, create_checksum.
+  fold (split6 (N.lxor (bech32_polymod ((hrp_expand hrp ++ data) ++ [0; 0; 0; 0; 0; 0]))
+                       (match spec with Some BECH32M => BECH32M_CONST | _ => BECH32_CONST end))).
+  rewrite app_assoc, polymod_checksum.
+  - destruct spec as [[|]|]; reflexivity.
+  - apply small_app; [now apply hrp_expand_small | now apply small_of_lt32].
+  - destruct spec as [[|]|]; reflexivity.
+Qed.
+
+Lemma create_checksum_lt hrp data spec : data_ok (create_checksum hrp data spec).
+Proof. unfold create_checksum. apply split6_lt. Qed.
+Lemma create_checksum_length hrp data spec : length (create_checksum hrp data spec) = 6%nat.
+Proof. reflexivity. Qed.
